@@ -258,7 +258,7 @@ impl Kernel {
                 }
                 let fd = self.world.fds.iter().find(|f| f.fd == n).ok_or(ENOENT)?;
                 if fd.link_fails {
-                    return Err(ENOENT);
+                    return Err(36); // ENAMETOOLONG: the link text does not fit a path
                 }
                 return Ok(fd.target.0.clone());
             }
